@@ -336,7 +336,7 @@ def run_search(ck):
         for (viol, info) in [by_index[idx]]:
             key = "%s/%s/%s" % (c["model"], c["loss"], "IV" if c["iv"] else "theta")
             dist[key] = dist.get(key, 0) + 1
-            light = {k: c[k] for k in ("model", "loss", "obs", "target_param", "target_state", "iv", "weights", "spread", "method", "theta", "x0")}
+            light = {k: c.get(k) for k in ("model", "loss", "obs", "target_param", "target_state", "iv", "weights", "spread", "method", "theta", "x0", "t0", "t_int")}
             light["odes"] = c["md"]["odes"]
             ck.case(dict(kind="search", **light), nontrivial=S.nontrivial(c))
             worst = max(worst, info["max_err"])
